@@ -227,6 +227,8 @@ class CSym(object):
             par, level = tid, "thread"
             qv = [(tid, tm.ZERO, nth, tm.ONE)] + list(self.qvars)
             gd = [tm.mk_le(tm.ZERO, tid), tm.mk_lt(tid, nth)] + list(self.guards)
+        if extra is None and getattr(self, "in_critical", 0) and self.in_parallel and self.par is None:
+            extra = ("every-thread-exclusive",)     # critical / atomic code outside any worksharing loop: run once by EVERY thread of the team
         e = Ev(kind, ptr.arr, ptr.off, op, val, gd, qv, par, self.seq, self.fn_stack[-1] if self.fn_stack else "?", extra)
         e.phase, e.level = self.phase, level
         e.outer = self.region_start if self.in_parallel else 0
@@ -553,17 +555,21 @@ class CSym(object):
 
     def s_OMPCriticalDirective(self, n, env, tu):
         self.in_single += 1
+        self.in_critical = getattr(self, "in_critical", 0) + 1
         try:
             self.exec(self._omp_stmt(n), env, tu)
         finally:
             self.in_single -= 1
+            self.in_critical -= 1
 
     def s_OMPAtomicDirective(self, n, env, tu):
         self.in_single += 1
+        self.in_critical = getattr(self, "in_critical", 0) + 1
         try:
             self.exec(self._omp_stmt(n), env, tu)
         finally:
             self.in_single -= 1
+            self.in_critical -= 1
 
     def s_OMPSingleDirective(self, n, env, tu):
         self.in_single += 1
@@ -792,7 +798,12 @@ class CSym(object):
                 part = tm.mk_sum(bv, lo_t, v, tm.substitute(delta_s, {v: bv}))
                 bv2 = fresh(var + "'")
                 full = tm.mk_sum(bv2, lo_t, hi_t, tm.substitute(delta_s, {v: bv2}))
-                forms[name] = ("red", s0 + part, s0 + full)
+                after_ = s0 + full
+                if parallel and is_real and self._is_private(name) and name not in set(clauses.get("OMPReductionClause", [])):
+                    # a thread-private scalar accumulated in a worksharing loop holds this thread's PARTIAL sum afterwards (only a reduction-clause
+                    # variable or a shared scalar holds the total)
+                    after_ = tm.mk_fn("tpart:" + name, after_)
+                forms[name] = ("red", s0 + part, after_)
         # ---- pass B: the real execution of the generic iteration
         envB = dict(env)
         for name, (kind, at_v, after) in forms.items():
@@ -1291,7 +1302,9 @@ class CSym(object):
         # store forwarding from writes of the same generic iteration / earlier completed loops
         if self.footprint and arr.kind != "int":
             self.emit("r", p)
-            return fresh("any", "R") if any(e.kind == "w" and e.arr is arr for e in self.events) else tm.mk_fn("rd:" + arr.name, p.off)
+            if any(e.kind == "w" and e.arr is arr for e in self.events):
+                return fresh("anyp" if arr.private else "any", "R")      # 'anyp': content of a thread-private array (a thread-partial result)
+            return tm.mk_fn("rd:" + arr.name, p.off)
         fw = self._forward(p)
         if fw is not None:
             return fw
